@@ -601,7 +601,12 @@ class BaseParser:
                 if not isinstance(k, str):
                     k = str(k)
                 if k.lower() in self.case_insensitive_names:
-                    _data[k.lower()] = v
+                    field = self.get_field(k) if excluded_keys else None
+                    if field and (field.attname if as_attname else field.name) in excluded_keys:
+                        # already given (by position): this is an additional item, kept as it is written
+                        _data[k] = v
+                    else:
+                        _data[k.lower()] = v
                 else:
                     _data[k] = v
             data = _data
